@@ -1,10 +1,10 @@
 (** C15 — the reorder buffer returns responses in request order, exactly once.
-    Statements only; every proof is [exact <lemma>] into VMem.RobProofs.
+    Statements only; every proof is [exact <lemma>] into VMem.RobProofs / VMem.RobCtl.
     [run (init c w) evs] ranges over every configuration (capacity c, width w)
     and every finite sequence of environment events: deliveries on the three
     ports (accepted or refused by the bounded buffers), ticks, retrievals. *)
 From VLib Require Import Akita ListX.
-From VMem Require Import Rob RobProofs.
+From VMem Require Import Rob RobProofs RobCtl.
 Open Scope N_scope.
 
 (** All responses ever pushed to the requester (retrieved or still in the top
@@ -111,6 +111,25 @@ Theorem rob_progress : forall s t rest r,
 Proof. exact head_retires. Qed.
 Print Assumptions rob_progress.
 
+(** Control protocol: every accepted control message (discard / restart) is acknowledged exactly once and in
+    order, under any back-pressure on the control port: the acknowledgements collected so far, those waiting in
+    the port and those owed for messages not yet processed are, in this order, exactly the acknowledgements of
+    the accepted control messages. *)
+Theorem rob_control_acknowledged_exactly_once : forall c w evs,
+  let s := run (init c w) evs in
+  g_cretr s ++ ctl_out s ++ map ctl_ack (ctl_in s) = map ctl_ack (g_cdeliv s).
+Proof. exact ctl_ack_exactly_once. Qed.
+Print Assumptions rob_control_acknowledged_exactly_once.
+
+(** ... and a refused acknowledgement is retried: with room in the control port the next tick consumes the
+    message at the head and sends its acknowledgement. *)
+Theorem rob_control_retry : forall s c rest,
+  crashed s = false -> ctl_in s = c :: rest ->
+  (has_flag c F_DISCARD || has_flag c F_RESTART)%bool = true -> ctl_out s = [] ->
+  let s' := fst (tick s) in ctl_in s' = rest /\ ctl_out s' = [ctl_ack c].
+Proof. exact ctl_progress. Qed.
+Print Assumptions rob_control_retry.
+
 (** Non-vacuity: a concrete history (two reads answered out of order, then a
     discard that drops a third one) reaches the states the theorems speak of. *)
 Definition rd (id a src : N) : msg := mkMsg id KRead src P_TOP 0 a 4 1 [] [] 0.
@@ -125,5 +144,6 @@ Example demo_in_order :
   let s := run (init 4 2) demo in
   map m_rspto (g_retr s) = [1; 2] /\ map m_data (g_retr s) = [[1;1;1;1]; [2;2;2;2]] /\
   map (fun p => (m_id (t_top (fst p)), snd p)) (g_fate s) = [(1, true); (2, true); (3, false)] /\
-  txs s = [] /\ flushing s = true.
+  txs s = [] /\ flushing s = true /\
+  length (g_cdeliv s) = 1%nat /\ length (ctl_out s) = 1%nat /\ ctl_in s = [].
 Proof. vm_compute. repeat split; reflexivity. Qed.
